@@ -127,6 +127,10 @@ pub enum SpecialCols {
     IndexForm,
 }
 pub const SPECIAL_COLS: &[SpecialCols] = &[SpecialCols::All, SpecialCols::Headword, SpecialCols::Reading, SpecialCols::Norm, SpecialCols::ReadingNorm, SpecialCols::IndexForm];
+/// directed lexicons with long arrays: `special` = ARRAYS_BASE + variant
+pub const ARRAYS_BASE: usize = 1000;
+pub const ARRAY_VARIANTS: usize = 3;
+pub const ARRAY_LENGTHS: &[usize] = &[0, 1, 63, 64, 65, 127];
 /// rows of a directed lexicon
 pub const SPECIAL_ROWS: usize = 7;
 /// number of directed lexicons that together carry every (columns, special text) combination once
@@ -424,6 +428,10 @@ fn gen_ids(rng: &mut Rng, n_sys: usize, n_user: usize, user: bool, sink: &mut Si
             sink.tag("array_127_items");
             127
         }
+        8 => {
+            sink.tag("array_63_64_65_items");
+            *rng.pick(&[63usize, 64, 65])
+        }
         1..=3 => 2,
         4..=7 => 1,
         _ => 0,
@@ -447,7 +455,16 @@ pub fn gen_lex(rng: &mut Rng, sink: &mut Sink, pool: &[Pos], sys: Option<&Lex>, 
 #[allow(clippy::too_many_arguments)]
 pub fn gen_lex_with(rng: &mut Rng, sink: &mut Sink, pool: &[Pos], sys: Option<&Lex>, ids_below: i16, big: bool, findings: bool, special: Option<usize>) -> Lex {
     let user = sys.is_some();
-    let n = if special.is_some() { SPECIAL_ROWS } else { 1 + rng.below(7) as usize };
+    // Some(ARRAYS_BASE + v): the directed lexicon whose rows carry arrays of ARRAY_LENGTHS items (variant v)
+    let arrays = special.filter(|d| *d >= ARRAYS_BASE).map(|d| d - ARRAYS_BASE);
+    let special = special.filter(|d| *d < ARRAYS_BASE);
+    let n = if arrays.is_some() {
+        ARRAY_LENGTHS.len()
+    } else if special.is_some() {
+        SPECIAL_ROWS
+    } else {
+        1 + rng.below(7) as usize
+    };
     let n_sys = sys.map(|s| s.rows.len()).unwrap_or(n);
     let mut rows: Vec<Row> = vec![];
     for i in 0..n {
@@ -603,9 +620,29 @@ pub fn gen_lex_with(rng: &mut Rng, sink: &mut Sink, pool: &[Pos], sys: Option<&L
             },
             star_lists: rng.chance(1, 2),
         };
+        // directed arrays: split A / split B / word structure / synonym groups of 0, 1, 63, 64, 65, 127 items in rotating
+        // positions (4 x the item count is where a byte count leaves u8: 64 items = 256 bytes)
+        if let Some(v) = arrays {
+            let len = |k: usize| -> usize {
+                match v % 3 {
+                    0 => ARRAY_LENGTHS[(i + k) % ARRAY_LENGTHS.len()],
+                    1 => ARRAY_LENGTHS[i % ARRAY_LENGTHS.len()],
+                    _ => ARRAY_LENGTHS[(i + 3 - k) % ARRAY_LENGTHS.len()],
+                }
+            };
+            let mut ids = |k: usize, rng: &mut Rng| -> Vec<Ref> {
+                (0..len(k)).map(|_| if user && rng.chance(1, 2) { Ref::User(rng.below(n as u64) as u32) } else { Ref::Sys(rng.below(n_sys.max(1) as u64) as u32) }).collect()
+            };
+            row.mode = *rng.pick(&["C", "B", "*", "c"]);
+            row.split_a = ids(0, rng);
+            row.split_b = ids(1, rng);
+            row.word_structure = ids(2, rng);
+            row.synonyms = Some((0..len(3)).map(|j| 100_000 + 31 * j as u32 + i as u32).collect());
+            sink.tag(&format!("directed:arrays A={} B={} WS={} SYN={}", len(0), len(1), len(2), len(3)));
+        }
         // homonyms: a row with the index form, headword, POS and reading of an earlier own row or of a system row, so that
         // inline references meet several candidates (first own row wins, own rows win over system rows)
-        if i > 0 && special.is_none() && rng.chance(1, 7) {
+        if i > 0 && special.is_none() && arrays.is_none() && rng.chance(1, 7) {
             let mut cands: Vec<&Row> = rows.iter().filter(|r| r.surface.len() < 300).collect();
             if let Some(s) = sys {
                 cands.extend(s.rows.iter().filter(|r| r.surface.len() < 300));
@@ -625,7 +662,7 @@ pub fn gen_lex_with(rng: &mut Rng, sink: &mut Sink, pool: &[Pos], sys: Option<&L
     // referring row is read, i.e. before the row that owns it (first occurrence in file order, split columns first)
     for i in 0..rows.len() {
         let md = rows[i].mode.trim();
-        if md == "A" || md == "a" || !rng.chance(1, 5) {
+        if md == "A" || md == "a" || arrays.is_some() || !rng.chance(1, 5) {
             continue;
         }
         let cands: Vec<usize> = (i + 1..rows.len())
@@ -865,6 +902,73 @@ pub fn readback<D: DictionaryAccess>(d: &D, dic: u8, n: usize) -> Vec<Readback> 
             }
         })
         .collect()
+}
+
+/// field subsets that SKIP stored fields and request later ones: every combination of the four array fields (split A,
+/// split B, word structure, synonym groups -- stored in that order at the end of a word info), alone and with text fields
+pub const SKIP_SUBSETS: &[u32] = &[
+    64, 128, 256, 512, 64 | 128, 64 | 256, 64 | 512, 128 | 256, 128 | 512, 256 | 512, 64 | 128 | 256, 64 | 128 | 512, 64 | 256 | 512, 128 | 256 | 512, 1 | 512, 32 | 256, 8 | 128, 16 | 512, 4 | 512, 2 | 256, 8, 32,
+];
+/// C05 under partial loads: every entry read with each of SKIP_SUBSETS (as every entry point does: normalized) must give,
+/// for every requested field, the declared value (`expd`, what the full read-back is compared with).  Entries whose full
+/// read-back already differs (`rbs`) are left out.  Returns the first difference.
+pub fn subset_readback<D: DictionaryAccess>(d: &D, dic: u8, expd: &[Readback], rbs: &[Readback]) -> Option<String> {
+    use sudachi::dic::subset::InfoSubset;
+    for (i, x) in expd.iter().enumerate() {
+        if rbs.get(i) != Some(x) {
+            continue;
+        }
+        let (surface, hwlen, pos, norm, dfwi, dicform, reading, a, b, ws, syn) = match x {
+            Readback::Ok { surface, hwlen, pos, norm, dfwi, dicform, reading, a, b, ws, syn, .. } => (surface, hwlen, pos, norm, dfwi, dicform, reading, a, b, ws, syn),
+            _ => continue,
+        };
+        let wid = WordId::new(dic, i as u32);
+        for &s in SKIP_SUBSETS {
+            let req = InfoSubset::from_bits_truncate(s);
+            let got = catch(|| d.lexicon().get_word_info_subset(wid, req.normalize()).map_err(|e| format!("{:?}", e)));
+            let w = match got {
+                Ok(Ok(w)) => w,
+                Ok(Err(e)) => return Some(format!("word {} loaded with the field subset {:#b} (arrays declared: A {} B {} WS {} SYN {} items): Err {}", i, s, a.len(), b.len(), ws.len(), syn.len(), e)),
+                Err(p) => return Some(format!("word {} loaded with the field subset {:#b} (arrays declared: A {} B {} WS {} SYN {} items): panic {}", i, s, a.len(), b.len(), ws.len(), syn.len(), p)),
+            };
+            let raw = |v: &[WordId]| -> Vec<u32> { v.iter().map(|w| w.as_raw()).collect() };
+            let mut diff: Vec<String> = vec![];
+            if s & 1 != 0 && w.surface() != surface {
+                diff.push(format!("surface {:?}, declared {:?}", w.surface(), surface));
+            }
+            if s & 2 != 0 && w.head_word_length() != *hwlen {
+                diff.push(format!("head word length {}, declared {}", w.head_word_length(), hwlen));
+            }
+            if s & 4 != 0 && w.pos_id() != *pos {
+                diff.push(format!("POS id {}, declared {}", w.pos_id(), pos));
+            }
+            if s & 8 != 0 && w.normalized_form() != norm {
+                diff.push(format!("normalized form {:?}, declared {:?}", w.normalized_form(), norm));
+            }
+            if s & 16 != 0 && (w.dictionary_form_word_id() != *dfwi || w.dictionary_form() != dicform) {
+                diff.push(format!("dictionary form {} {:?}, declared {} {:?}", w.dictionary_form_word_id(), w.dictionary_form(), dfwi, dicform));
+            }
+            if s & 32 != 0 && w.reading_form() != reading {
+                diff.push(format!("reading {:?}, declared {:?}", w.reading_form(), reading));
+            }
+            if s & 64 != 0 && &raw(w.a_unit_split()) != a {
+                diff.push(format!("split A {:?}, declared {:?}", raw(w.a_unit_split()), a));
+            }
+            if s & 128 != 0 && &raw(w.b_unit_split()) != b {
+                diff.push(format!("split B {:?}, declared {:?}", raw(w.b_unit_split()), b));
+            }
+            if s & 256 != 0 && &raw(w.word_structure()) != ws {
+                diff.push(format!("word structure {:?}, declared {:?}", raw(w.word_structure()), ws));
+            }
+            if s & 512 != 0 && w.synonym_group_ids() != &syn[..] {
+                diff.push(format!("synonym groups {:?}, declared {:?}", w.synonym_group_ids(), syn));
+            }
+            if !diff.is_empty() {
+                return Some(format!("word {} loaded with the field subset {:#b} (arrays declared: A {} B {} WS {} SYN {} items): {}", i, s, a.len(), b.len(), ws.len(), syn.len(), diff.join("; ")));
+            }
+        }
+    }
+    None
 }
 
 /// the route a user takes to an entry: surface -> index lookup -> word ids.  For every row, looking its index form up
@@ -1205,6 +1309,10 @@ pub fn run_case(sink: &mut Sink, c: &Case, desc: Value, verbose: bool) {
                     bad = Some(format!("word {} read back as {:?}, declared {:?}", i, y, x));
                 }
             }
+            // the same entries under partial loads that skip stored fields and request later ones
+            if bad.is_none() {
+                bad = subset_readback(&loaded, 0, &expd, &rbs);
+            }
             if verbose {
                 println!("system csv:\n{}matrix:\n{}", c.sys_csv, c.matrix_text);
                 println!("implementation read-back: {:#?}", rbs);
@@ -1297,6 +1405,9 @@ pub fn run_case(sink: &mut Sink, c: &Case, desc: Value, verbose: bool) {
                 } else if bad.is_none() {
                     bad = Some(format!("user word {} read back as {:?}, declared {:?}", i, y, x));
                 }
+            }
+            if bad.is_none() {
+                bad = subset_readback(&jd, 1, &expd, &rbs).map(|b| format!("user {}", b));
             }
             if verbose {
                 println!("system csv:\n{}matrix:\n{}user csv:\n{}", c.sys_csv, c.matrix_text, c.user_csv);
@@ -1411,6 +1522,9 @@ fn run_stack_case(
         if x != y && bad.is_none() {
             bad = Some(format!("word {} of the second user dictionary read back as {:?}, declared {:?}", i, y, x));
         }
+    }
+    if bad.is_none() {
+        bad = subset_readback(&jd, 2, &expd, &rbs).map(|b| format!("second user dictionary: {}", b));
     }
     if verbose {
         println!("second user csv:\n{}", c.user2_csv);
@@ -1710,7 +1824,7 @@ fn case_from_state(state: u64, user: bool, big: bool, findings: bool, special: O
 pub fn run(args: &Args) {
     let mut sink = Sink::new("C05", &args.out, &["Model.Codec", "Model.CodecIO", "Model.CodecResolve", "Model.CodecCsv", "Model.CodecCheck"], args.seed, &args.tier);
     sink.shard_size = 40;
-    sink.rule("random lexicons of 1..7 rows (strings of 1..3 chars or 126/127/128/129/255..257/32766/32767 UTF-16 units mixing kana, kanji, ASCII, U+7F/80/7FF/800/D7FF/E000/FFFF and astral characters, \\uXXXX and \\u{X} escapes, forms empty / equal to the headword / different, index form of 126..128 bytes, arrays of 0/1/2/127 ids, numeric, U-prefixed and inline references, dictionary-form references, synonym column present/absent/empty; form columns drawn from the texts that are special elsewhere in the format) x matrices 1..5 x 1..5 (non-square, duplicated and missing cells, extreme costs) x system / user dictionary; non-trivial = at least two rows (system) or a user dictionary; distinct by generated Coq term; first the directed lexicons (7 rows each: every form-column set x every special text, system and user); then the command-line and Python build routes with 2..3 lexicon files in 7 orders (non-alphabetical, repeated path, sub-directory, alphabetical) for system and user dictionaries");
+    sink.rule("random lexicons of 1..7 rows (strings of 1..3 chars or 126/127/128/129/255..257/32766/32767 UTF-16 units mixing kana, kanji, ASCII, U+7F/80/7FF/800/D7FF/E000/FFFF and astral characters, \\uXXXX and \\u{X} escapes, forms empty / equal to the headword / different, index form of 126..128 bytes, arrays of 0/1/2/63/64/65/127 ids, numeric, U-prefixed and inline references, dictionary-form references, synonym column present/absent/empty; form columns drawn from the texts that are special elsewhere in the format) x matrices 1..5 x 1..5 (non-square, duplicated and missing cells, extreme costs) x system / user dictionary; non-trivial = at least two rows (system) or a user dictionary; distinct by generated Coq term; first the directed lexicons (7 rows each: every form-column set x every special text, system and user; 6 rows each: split A / split B / word structure / synonym arrays of 0, 1, 63, 64, 65, 127 items in rotating positions, system and user); every entry is read back with all fields and with 22 field subsets that skip stored arrays / texts and request later fields, each requested field against the declared value; then the command-line and Python build routes with 2..3 lexicon files in 7 orders (non-alphabetical, repeated path, sub-directory, alphabetical) for system and user dictionaries");
     if let Some(p) = &args.replay {
         let v: Value = serde_json::from_str(&std::fs::read_to_string(p).unwrap()).unwrap();
         let case = &v["case"];
@@ -1743,9 +1857,17 @@ pub fn run(args: &Args) {
     let mut procs = 0usize;
     // directed lexicons first: every (form columns, text that is special elsewhere in the format) combination, as a system
     // lexicon and as a user lexicon -- whatever the seed
-    let directed = 2 * special_cases();
+    let directed_forms = 2 * special_cases();
+    let directed = directed_forms + 2 * ARRAY_VARIANTS;
     for k0 in 0..directed + n {
-        let special = if k0 < directed { Some(k0 / 2) } else { None };
+        let special = if k0 < directed_forms {
+            Some(k0 / 2)
+        } else if k0 < directed {
+            // arrays of 0 / 1 / 63 / 64 / 65 / 127 items in every array field
+            Some(ARRAYS_BASE + (k0 - directed_forms) / 2)
+        } else {
+            None
+        };
         let k = if k0 < directed { 0 } else { k0 - directed };
         let user = if k0 < directed { k0 % 2 == 1 } else { k % 3 == 2 };
         let big = special.is_none() && k % 97 == 6;
